@@ -8,6 +8,7 @@ CONSTANTS
   CtxOf <- McCtxOf
   Removable <- McRemovable
   BeginKinds <- AllKinds
+  KeepH = {"m1", "pc", "ch"}
   TrackH = "none"
   Tok = {0, 1}
   MaxTx = 3
